@@ -108,6 +108,11 @@ def gen_cases(tier, seed):
     for lo in range(0, len(neg), 20):
         cases.append(dict(kind="intlist", m=3, n=3, ent=list(ENT4), idx=neg[lo:lo + 20], scales=[1.0], dtypes=["float64"], mode="full",
                           extra32=True))
+    # added after two seeded changes were missed: preference vectors of tiny magnitude (the cosines depend on their direction only) and
+    # very wide matrices (the numerical-rank tolerance of Aligned-MTL must not grow with the number of columns)
+    cases.append(dict(kind="special", what="tiny-pref"))
+    for k_ in range(2):
+        cases.append(dict(kind="special", what="wide", k=k_))
     for n in range(1, 6):
         for m in range(1, n + 1):
             cases.append(dict(kind="dense", m=m, n=n, seed=seed, scales=list(SCALES), dtypes=both, mode="full", extra32=False))
@@ -364,8 +369,71 @@ def _run_zero(acc, case):
                                                  f"on {J1.tolist()}, a new instance returns {y.tolist()}"))
 
 
+def _run_special(acc, case):
+    import torch
+    from torchjd.aggregation import AlignedMTL, ConFIG
+
+    if case["what"] == "tiny-pref":
+        mats = [np.array([[1.0, 2.0, 0.0], [-1.0, 1.0, 1.0]]), np.array([[2.0, -1.0, 0.5], [0.5, 1.0, -1.0], [1.0, 1.0, 2.0]])]
+        for J in mats:
+            m = J.shape[0]
+            base = np.arange(1, m + 1, dtype=np.float64)
+            for dtype in ("float64", "float32"):
+                dt = getattr(torch, dtype)
+                Jt = torch.tensor(J, dtype=dt)
+                ref = None
+                for mag in (1.0, 1e-3, 1e-6, 1e-9):
+                    acc.execs += 1
+                    try:
+                        x = ConFIG(pref_vector=torch.tensor(base * mag, dtype=dt))(Jt).double().numpy()
+                    except Exception as e:
+                        acc.viol.append(dict(sig=f"exception:config:{type(e).__name__}", msg=f"ConFIG pref={mag}*{base.tolist()} {dtype}: {e!r}"[:300]))
+                        continue
+                    # direction: cosines proportional to the preference, whatever its magnitude; length: sum of projections (independent of it)
+                    if ref is None:
+                        ref = x
+                    tol = (1e-9 if dtype == "float64" else 2e-4) * max(1.0, float(np.abs(ref).max()))
+                    err = float(np.abs(x - ref).max())
+                    acc.mg(f"config-pref-magnitude:{dtype}", err / tol)
+                    acc.nontriv += 1
+                    acc.outcomes.add(f"tp:{dtype}:{mag}")
+                    if not (err <= tol):
+                        acc.viol.append(dict(sig="config-depends-on-the-magnitude-of-the-preference-vector", cls=f"tinypref:{dtype}",
+                                             msg=f"ConFIG J={J.tolist()} {dtype}: pref {mag}*{base.tolist()} gives {x.tolist()}, pref {base.tolist()} gives {ref.tolist()}"))
+        return
+    # wide: condition numbers 10 and 3, 100 000 and 300 000 columns: re-balanced rows orthogonal and of length sigma_min
+    k = case["k"]
+    sv = [(1.0, 0.5, 0.1), (1.0, 0.6, 1.0 / 3.0)][k]
+    n = (100000, 300000)[k]
+    J = np.zeros((3, n))
+    for i in range(3):
+        J[i, i::3] = sv[i] / math.sqrt(len(range(i, n, 3)))  # three orthogonal rows of norms sv, spread over all columns
+    for dtype in ("float64", "float32"):
+        dt = getattr(torch, dtype)
+        Jt = torch.tensor(J, dtype=dt)
+        R = []
+        for i in range(3):
+            e = np.zeros(3)
+            e[i] = 1.0
+            acc.execs += 1
+            R.append(AlignedMTL(pref_vector=torch.tensor(e, dtype=dt))(Jt).double().numpy())
+        R = np.array(R)
+        G = R @ R.T
+        tol = (1e-9 if dtype == "float64" else 6e-3) * sv[0] ** 2
+        err = float(np.abs(G - (sv[2] ** 2) * np.eye(3)).max())
+        acc.mg(f"aligned-wide:{dtype}", err / tol)
+        acc.nontriv += 1
+        acc.outcomes.add(f"wide:{k}:{dtype}")
+        if not (err <= tol):
+            acc.viol.append(dict(sig="aligned-rebalanced-rows-not-orthogonal-of-length-sigma-min:wide", cls=f"wide:{dtype}",
+                                 msg=f"AlignedMTL on a 3x{n} matrix with singular values {sv} ({dtype}): R R^T={np.round(G, 6).tolist()} expected {sv[2] ** 2:.4g} * I"))
+
+
 def run_case(case):
     acc = _Acc()
+    if case["kind"] == "special":
+        _run_special(acc, case)
+        return acc.result()
     if case["kind"] == "zero":
         _run_zero(acc, case)
         _AGG.clear()
